@@ -3,7 +3,7 @@
    error / panic) insisting on the target shape [trail]; the buffer is an arbitrary view
    (offset, shape, strides -- negative, permuted, with gaps) into the caller's memory.     *)
 From Coq Require Import List Bool Arith ZArith.
-From NI Require Import Num Base Entry EntryProofs.
+From NI Require Import Num Base Entry EntryProofs Refuted.
 Import ListNotations.
 
 (* every cell of the buffer is overwritten with the value of the allocating variant: the cell at
@@ -46,6 +46,18 @@ Print Assumptions C14_interp_into_reject_wrong_shape.
 (* The 2-D precondition xs.shape() == ys.shape() (an assert! before anything else) is observed on
    the implementation (panic) on every run; the 2-D entry points are the same loop with a pair
    of coordinates as the query type T. *)
+
+(* the finding F3, kept as a machine-checked witness: the PINNED general path had no shape check up front;
+   for lanes [2], query shape [2] and a buffer of shape [3; 2] it returned Ok and left two cells unwritten,
+   where the repaired entry point (fix: commit 6104f0d) panics before any write *)
+Theorem C14_pinned_code_refuted :
+  let F := fun x : Z => Ok [x; (x + 100)%Z] in
+  let buffer := mkView 0%Z [3; 2] [2%Z; 1%Z] in
+  (exists m', interp_array_into_old F [2] [2] [7%Z; 9%Z] buffer (fun _ => (-1)%Z) = Ok m' /\
+              m' 4%Z = (-1)%Z /\ m' 5%Z = (-1)%Z) /\
+  interp_array_into F [2] [2] [7%Z; 9%Z] buffer (fun _ => (-1)%Z) = Panic.
+Proof. exact F3_old_accepts_oversized_buffer. Qed.
+Print Assumptions C14_pinned_code_refuted.
 
 Example C14_ex :   (* a reversed, strided window into a larger allocation *)
   let F := fun x : Z => Ok [x; (x + 1)%Z] in
